@@ -1,7 +1,7 @@
 #!/bin/bash
 # usage: tools_mut.sh <file-under-/repo> <sed-expr> <check args...>   -- apply a one-line mutation, run a check, revert
 f=$1; expr=$2; shift 2
-cd /repo && cp "$f" /tmp/mut.bak && sed -i "$expr" "$f"
+cd /repo && { git diff --quiet || { echo "REPO HAS UNCOMMITTED CHANGES - refusing"; exit 4; }; } && cp "$f" /tmp/mut.bak && sed -i "$expr" "$f"
 if cmp -s "$f" /tmp/mut.bak; then echo "MUTATION DID NOT APPLY"; exit 3; fi
 git diff --stat | tail -1
 cd /verif && ./check "$@" 2>&1 | grep -E "VIOLATION|KNOWN|BROKEN|violated|broken" | cut -c1-220
